@@ -138,6 +138,16 @@ fn int_products<M: MatT>(rep: &mut Report, name: &str, count: u64, gen: impl Fn(
                 acc.fail(&format!("{tn}::{site}"), format!("A={:?} B={:?} s={} got={:?} want={:?}", a, b, s, g, w));
             }
         }
+        // negation flips every entry *exactly* (a zero entry becomes -0) and transposition moves bits
+        {
+            let (src, gn, gt) = (ma.cols(), ma.neg_().cols(), ma.neg_().transpose_().cols());
+            for c in 0..n {
+                for r in 0..n {
+                    if gn[c * n + r].to_bits() != (-src[c * n + r]).to_bits() { acc.fail(&format!("{tn}::neg(bit-exact)"), format!("A={:?} entry ({r},{c}): got={:?} want={:?}", a, gn[c * n + r], -src[c * n + r])); }
+                    if gt[r * n + c].to_bits() != gn[c * n + r].to_bits() { acc.fail(&format!("{tn}::transpose(bit-exact)"), format!("A={:?} entry ({r},{c}) of -A: got={:?} want={:?}", a, gt[r * n + c], gn[c * n + r])); }
+                }
+            }
+        }
     });
 }
 
@@ -442,6 +452,28 @@ fn run<M: MatT>(rep: &mut Report) {
     real_checks::<M>(rep);
 }
 
+/// Mat3 and Mat3A each multiply both 3-vector types; every form is the exact integer product
+fn other_vector_type(rep: &mut Report) {
+    rep.sweep("Mat3,Mat3A/matrix*vector with either 3-vector type/512 grid matrices x [-2,2]^3 vectors", 512 * 125, |idx, acc| {
+        let a = grid_matrix(3, (idx / 125).wrapping_mul(7919).wrapping_add(idx / 125 * 37) % 1_953_125, 5, -2);
+        let mut q = idx % 125;
+        let v: Vec<i128> = (0..3).map(|_| { let x = (q % 5) as i128 - 2; q /= 5; x }).collect();
+        let mut want = [0f32; 3];
+        for r in 0..3 { let mut t = 0i128; for c in 0..3 { t += a[c * 3 + r] * v[c]; } want[r] = t as f32; }
+        let arr: [f32; 9] = core::array::from_fn(|k| a[k] as f32);
+        let vf: [f32; 3] = core::array::from_fn(|k| v[k] as f32);
+        let (m, ma) = (Mat3::from_cols_array(&arr), Mat3A::from_cols_array(&arr));
+        let (v3, v3a) = (Vec3::from_array(vf), <Vec3A as Flat>::build(&vf));
+        acc.eval(a.iter().filter(|x| **x != 0).count() > 3 && v.iter().any(|x| *x != 0), idx);
+        for (site, got) in [
+            ("Mat3::mul_vec3", m.mul_vec3(v3).to_array()), ("Mat3 * Vec3", (m * v3).to_array()), ("Mat3::mul_vec3a", m.mul_vec3a(v3a).to_array()), ("Mat3 * Vec3A", (m * v3a).to_array()),
+            ("Mat3A::mul_vec3", ma.mul_vec3(v3).to_array()), ("Mat3A * Vec3", (ma * v3).to_array()), ("Mat3A::mul_vec3a", ma.mul_vec3a(v3a).to_array()), ("Mat3A * Vec3A", (ma * v3a).to_array()),
+        ] {
+            if got != want { acc.fail(site, format!("A={:?} v={:?} got={:?} want={:?}", a, v, got, want)); }
+        }
+    });
+}
+
 fn main() {
     let mut rep = Report::new("C03", "exploration");
     silence_panics();
@@ -453,6 +485,7 @@ fn main() {
     run::<DMat2>(&mut rep);
     run::<DMat3>(&mut rep);
     run::<DMat4>(&mut rep);
+    other_vector_type(&mut rep);
     rep.sample(json!({"space": "Mat4/det,transpose,adjugate", "matrix_cols": [1, 0, 1, 1, 0, 1, 1, 0, 1, 1, 0, 1, 0, 1, 1, 1], "oracle": "i128 Laplace expansion; inverse*det == adjugate within 2 eps"}));
     rep.sample(json!({"space": "Mat3A/real", "matrix": "Q3*D(cond 1e3)*Q5^T*37.5", "oracle": "f64 adj/det, envelope K eps (S_adj/|det| + |inv| S_det/|det|), residuals M*inv-I, inv*M-I"}));
     // every operator trait impl of the tree (inventory from the rustdoc JSON): reference, assign and
